@@ -59,6 +59,7 @@ type FuncSpec struct {
 	Uses      []*Clause
 	Reveal    []string
 	Defines   []*Clause // definitional axioms of ghost functions (assumed on both sides)
+	CallPre   []*Clause // obligations at every call of a named external method inside this function: Label = method name, Props = argument names
 	Iface     string // for interface method contracts: interface name
 	File      string
 	Line      int
@@ -98,7 +99,7 @@ type Contracts struct {
 }
 
 var clauseKW = map[string]bool{"prop": true, "requires": true, "ensures": true, "assigns": true, "loop": true,
-	"decreases": true, "ghost": true, "ghost_final": true, "use": true, "reveal": true, "guarantee": true, "define": true, "panics_if": true, "trusted": true, "noinline": true, "pure": true, "allocates": true}
+	"decreases": true, "ghost": true, "ghost_final": true, "use": true, "reveal": true, "guarantee": true, "define": true, "callpre": true, "panics_if": true, "trusted": true, "noinline": true, "pure": true, "allocates": true}
 
 var headRe = regexp.MustCompile(`^func\s*(\(\s*(\w+)\s+(\*?[\w.]+)\s*\))?\s*([\w$.@]+)\s*\((.*?)\)\s*(\(.*\)|[\w.*\[\]]+)?\s*$`)
 
@@ -270,6 +271,17 @@ func loadContracts(files []string, pkgNames []string) (*Contracts, error) {
 					}
 					cur.GhostFinal = append(cur.GhostFinal, cl)
 					lastClause = cl
+				case "callpre":
+					gm := regexp.MustCompile(`^([\w.]+)\s*\(([\w\s,]*)\)\s*:\s*(.*)$`).FindStringSubmatch(rest)
+					if gm == nil {
+						return nil, fmt.Errorf("%s:%d: bad callpre clause %q", file, ln+1, rest)
+					}
+					cl := &Clause{Src: gm[3], Line: ln + 1, File: file, Label: gm[1]}
+					for _, pn := range strings.Split(gm[2], ",") {
+						cl.Props = append(cl.Props, strings.TrimSpace(pn))
+					}
+					cur.CallPre = append(cur.CallPre, cl)
+					lastClause = cl
 				case "define":
 					cl := &Clause{Src: rest, Line: ln + 1, File: file}
 					cur.Defines = append(cur.Defines, cl)
@@ -370,6 +382,7 @@ func loadContracts(files []string, pkgNames []string) (*Contracts, error) {
 		all = append(all, fs.GhostFinal...)
 		all = append(all, fs.Uses...)
 		all = append(all, fs.Defines...)
+		all = append(all, fs.CallPre...)
 		if fs.Decreases != nil {
 			all = append(all, fs.Decreases)
 		}
